@@ -142,10 +142,19 @@ def kernel_refcounter(core):
         raise KernelError("RefCounter.release is not `self.count op= n; if ...: schedule cb`")
     op2 = {ast.Add: "+", ast.Sub: "-"}.get(type(lb[0].op))
     newc = "(count %s %s)" % (op2, tr.expr(lb[0].value))
-    test = lb[1].test
-    # `self.count <= 0 and self.cb`: the callback is present in our model
+    # `self.count <= 0 and self.cb` (possibly written as nested ifs without else): the callback is present in our model
     tr2 = Tr({"self.count": "c", "self.cb": "true"})
-    fires = tr2.bexpr(test)
+    tests = []
+    node = lb[1]
+    while isinstance(node, ast.If):
+        if node.orelse:
+            raise KernelError("RefCounter.release: `else` branch in the scheduling condition")
+        tests.append(tr2.bexpr(node.test))
+        inner = body_src(node)
+        if len(inner) != 1:
+            raise KernelError("RefCounter.release: more than one statement under the scheduling condition")
+        node = inner[0]
+    fires = tests[0] if len(tests) == 1 else "(" + " && ".join(tests) + ")"
     calls = [ast.unparse(c.func) for c in ast.walk(lb[1]) if isinstance(c, ast.Call)]
     if "self.loop.add_callback" not in calls:
         raise KernelError("RefCounter.release does not schedule the callback with loop.add_callback")
